@@ -95,6 +95,7 @@ pub fn read_outputs(s: &mut Sess) -> Outputs {
 pub fn norm(r: &Res) -> Res {
     match r {
         Res::Ok(s) => Res::Ok(normalize_ids(s)),
+        Res::Err(s) => Res::Err(normalize_ids(s)),
         o => o.clone(),
     }
 }
